@@ -236,6 +236,13 @@ fn run_inner(ch: &mut Chooser, partial: &mut Option<RunOutcome>) -> RunOutcome {
                             tlvs.push(t);
                         }
                         parent.tlvs = tlvs;
+                        // now and then an Announce overtakes its predecessors, or the parent restarts its
+                        // counter: the sequenceId is then not newer than the last one seen - it still is an
+                        // Announce received from the current parent
+                        if ch.chance(S_WORK, 1, 10) {
+                            parent.seq_announce = parent.seq_announce.wrapping_sub(ch.range(S_WORK, 2, 4) as u16);
+                            w.out.fault("parent_announce_with_older_sequence_id");
+                        }
                         parent.send_announce(&mut w, ch);
                     }
                     parent.tlvs.clear();
